@@ -16,6 +16,7 @@ use sos_client_storage::{AccessOptions, NewFolderOptions};
 use sos_core::{
     crypto::AccessKey, AccountId, ExternalFile, ExternalFileName, Origin, Paths, SecretId, SecretPath, VaultId,
 };
+use sos_core::events::EventLog;
 use sos_external_files::list_external_files;
 use sos_net::{NetworkAccount, NetworkAccountOptions};
 use sos_protocol::AccountSync;
@@ -452,6 +453,17 @@ pub async fn run_case(idx: usize, hist: &Value, scratch: &Path, out: &mut Summar
                 tokio::time::sleep(Duration::from_millis(50)).await;
             }
             out.count("settle_ms_reader", t0.elapsed().as_millis() as u64);
+            if !ok && std::env::var("VERIF_DEBUG").is_ok() {
+                eprintln!("reader listed: {:?}\nreader reduced: {:?}\nserver reduced: {:?}", last.0, last.1, srv_log);
+                let log = w.reader.file_log().await?;
+                let log = log.read().await;
+                let s = log.event_stream(false).await;
+                futures::pin_mut!(s);
+                use futures::StreamExt;
+                while let Some(r) = s.next().await {
+                    eprintln!("  reader event: {:?}", r.map(|x| x.1));
+                }
+            }
             if !ok {
                 let left: BTreeSet<String> = last.0.difference(&last.1).cloned().collect();
                 let missing: BTreeSet<String> = last.1.difference(&last.0).cloned().collect();
